@@ -95,9 +95,9 @@ func cmdCheck(args []string) {
 	if s := os.Getenv("VERIF_SEED"); s != "" {
 		seed, _ = strconv.Atoi(s)
 	}
-	timeout, confirm := 10, false
+	timeout, confirm := 20, false
 	if tier == "thorough" {
-		timeout, confirm = 60, true
+		timeout, confirm = 120, true
 	}
 	verifRoot := "/verif"
 	if r := os.Getenv("GOCV_ROOT"); r != "" {
